@@ -163,6 +163,12 @@ class ArgumentParser(argparse.ArgumentParser):
                 help=_("show this help message and exit"),
             )
 
+        # Add the arguments and defaults of the parent parsers, exactly as `argparse.ArgumentParser.__init__`
+        # does (before any argument of this parser is declared, so that positionals keep argparse's order).
+        for parent in self._parents:
+            self._add_container_actions(parent)
+            self._defaults.update(getattr(parent, "_defaults", {}))
+
         self.config_path = Path(config_path) if isinstance(config_path, str) else config_path
         if add_config_path_arg is None:
             # By default, add a config path argument if a config path was passed.
